@@ -404,6 +404,9 @@ func runPurge(rc *RunCtx, prop, variant string) *simkit.Violation {
 			}
 		}
 	}
+	if !buildOK && (variant == "fault-free" || variant == "dedup-onto-orphan") && !fired(w) {
+		return Viol(prop, "purge-command-failed", "PurgeBuildReverseIndex", "", "the index build failed although no store call failed and nothing was interrupted: %v", bt.Err)
+	}
 	if !buildOK {
 		w.Probe("build-reported-failure")
 		w.Note("index build reported failure (%v): nothing is claimed for this run", bt.Err)
@@ -503,6 +506,9 @@ func runPurge(rc *RunCtx, prop, variant string) *simkit.Violation {
 			}
 		}
 		latePcs[i].repos[lateRepos[i]].Bundles = append(latePcs[i].repos[lateRepos[i]].Bundles, &mBundle{ID: lt.Result.(*core.Bundle).BundleID, Tree: lateTrees[i], Leaf: p.leaf})
+	}
+	if dt.Err != nil && (variant == "fault-free" || variant == "dedup-onto-orphan") && !fired(w) {
+		return Viol(prop, "purge-command-failed", "PurgeDeleteUnused", "", "delete-unused failed although no store call failed and nothing was interrupted: %v", dt.Err)
 	}
 	if dt.Err != nil {
 		w.Probe("delete-reported-failure")
